@@ -20,6 +20,7 @@ import (
 	"fmt"
 	"os"
 	"path/filepath"
+	"runtime/debug"
 	"sort"
 )
 
@@ -56,6 +57,13 @@ func (c *runCtx) pick(q, t int) int {
 }
 
 func (c *runCtx) count(key string) { c.stats[key]++ }
+
+// context records what the harness is doing right now, on disk, so that a crash of the real
+// code in a goroutine nobody can recover from still leaves the failing input behind.
+func (c *runCtx) context(s string) {
+	c.extra["context"] = s
+	os.WriteFile(filepath.Join(c.out, "last_context.txt"), []byte(s), 0o644)
+}
 func (c *runCtx) countN(key string, n int) { c.stats[key] += n }
 
 // nontrivial records one distinct non-trivial case, identified by its canonical form.
@@ -156,5 +164,21 @@ func main() {
 	c.impl = c.open("impl.jsonl")
 	c.oracle = c.open("oracle.jsonl")
 	defer c.close()
-	fn(c)
+	// a panic of the real code that a slice did not catch itself is a finding with the
+	// schedule so far, not a harness failure
+	func() {
+		defer func() {
+			if r := recover(); r != nil {
+				c.violation(c.nCases, prop+"/panic", fmt.Sprintf("the real code panicked: %v", r), map[string]any{"stack": trunc(string(debug.Stack()), 3000), "context": c.extra["context"]})
+			}
+		}()
+		fn(c)
+	}()
+}
+
+func trunc(s string, n int) string {
+	if len(s) > n {
+		return s[:n]
+	}
+	return s
 }
